@@ -28,7 +28,7 @@ from __future__ import annotations
 
 import ast
 import re
-from dataclasses import dataclass, field
+from dataclasses import dataclass
 from typing import Callable, Iterable
 
 from .core import AnalysisError
@@ -700,13 +700,14 @@ NP_VIEWISH = {
     "swapaxes", "transpose", "permute_dims", "matrix_transpose", "reshape", "ravel", "squeeze", "expand_dims",
     "real", "imag", "real_if_close", "diagonal", "split", "array_split", "hsplit", "vsplit", "dsplit",
     "flip", "fliplr", "flipud", "rot90", "frombuffer", "nan_to_num", "lib.stride_tricks.as_strided",
-    "lib.stride_tricks.sliding_window_view", "ndarray", "asmatrix", "from_dlpack", "trim_zeros", "unstack",
+    "lib.stride_tricks.sliding_window_view", "ndarray", "asmatrix", "from_dlpack", "trim_zeros", "unstack", "diag",
 }  # fmt: skip
 # methods whose result shares memory with the receiver whenever possible
-VIEWISH_METHODS = {"view", "reshape", "transpose", "ravel", "squeeze", "swapaxes", "diagonal", "getfield", "newbyteorder", "byteswap"}
+# (``x.conj()`` returns ``x`` itself for real dtypes, unlike the ufunc ``np.conjugate(x)``)
+VIEWISH_METHODS = {"view", "reshape", "transpose", "ravel", "squeeze", "swapaxes", "diagonal", "getfield", "newbyteorder", "byteswap", "conj", "conjugate"}
 # methods that always allocate their result
 FRESH_METHODS = {
-    "copy", "flatten", "conj", "conjugate", "sum", "mean", "std", "var", "max", "min", "prod", "trace", "round",
+    "copy", "flatten", "sum", "mean", "std", "var", "max", "min", "prod", "trace", "round",
     "cumsum", "cumprod", "dot", "tolist", "item", "tobytes", "argmax", "argmin", "all", "any", "nonzero", "repeat",
     "take", "choose", "compress", "__deepcopy__", "__copy__",
 }  # fmt: skip
@@ -965,6 +966,9 @@ class Classifier:
                 return Val(MAYBE, src.roots, why=f"np.{name} returns a view whenever possible")
             if name in ("may_share_memory", "shares_memory", "isscalar", "iscomplexobj", "ndim", "shape", "size", "result_type", "dtype"):
                 return Val(FRESH, why=f"np.{name} returns a scalar/descriptor")
+            if "." in name and not name.startswith(("linalg.", "random.", "fft.")):
+                self.unresolved.add(cn)
+                return Val(UNKNOWN, why=f"result of np.{name}(...) (sub-module function that is not classified)")
             return Val(FRESH, why=f"np.{name} allocates its result")
         # builtins
         if isinstance(e.func, ast.Name) and path.lookup(e.func.id, idx) is None and e.func.id not in env:
